@@ -50,7 +50,8 @@ def plan(tier, seed):
             if solver in ("AndersonCD", "ProxNewton"):
                 pens = [p for p in pens if p in ("L1", "WeightedL1", "L1_plus_L2", "MCPenalty", "IndicatorBox",
                                                  "PositiveConstraint", "L0_5")]
-            shards.append(dict(name="%s/%s" % (solver, df), solver=solver, datafit=df, penalties=pens, reps=REPS[tier]))
+            shards.append(dict(name="%s/%s" % (solver, df), solver=solver, datafit=df, penalties=pens,
+                               reps=REPS[tier] * (3 if (solver == "GroupProxNewton" and tier == "quick") else 1)))
     shards.append(dict(name="estimators", solver="EST", datafit=None, penalties=[], reps=REPS[tier] * 3))
     for sv, df, pen in K.TOLSWEEP_FAMILIES:
         shards.append(dict(name="tolsweep/%s/%s/%s" % (sv, df, pen), solver=sv, datafit=df, penalties=[pen],
@@ -93,13 +94,20 @@ def gen_spec(rng, solver, df, pen, seed, coords):
         knobs["use_acc"] = (not knobs["greedy_cd"]) and bool(rng.integers(0, 2))
     if solver == "MultiTaskBCD":
         knobs["use_acc"] = bool(rng.integers(0, 2))
-    return K.widen(rng, dict(check="C17", seed=seed, coords=coords, solver=solver, datafit=df, penalty=pen, storage=storage,
+    spec_ = K.widen(rng, dict(check="C17", seed=seed, coords=coords, solver=solver, datafit=df, penalty=pen, storage=storage,
                 fit_intercept=icpt, strategy=strategy, n=n, p=p, xkind=str(rng.choice(["gauss", "ar", "shifted"])),
                 rho=0.8, alpha_frac=float(rng.choice([0.02, 0.1, 0.5])),
                 positive=bool(rng.integers(0, 2)) if pen in K.POSFLAG + ["WeightedGroupL2"] else False,
                 knobs=knobs, group_style=str(rng.choice(["contig", "perm"])), n_tasks=int(rng.integers(1, 4)),
                 warm=str(rng.choice(["cold", "zero", "dense"])), budget_class=klass),
-                   prob=0.1, n_range=(40, 100), p_range=(60, 250))
+                    prob=0.1, n_range=(40, 100), p_range=(60, 250))
+    if solver == "GroupProxNewton" and spec_ is not None and isinstance(coords[-1], int):
+        # its single cell (LogisticGroup x WeightedGroupL2): positivity and intercept in rotation, so that the few
+        # repetitions of the quick tier meet "constraint on the coefficients, free intercept of either sign"
+        r_ = coords[-1]
+        spec_["positive"] = bool(r_ % 2 == 0)
+        spec_["fit_intercept"] = bool(r_ % 4 in (0, 1)) and info["intercept"]
+    return spec_
 
 
 def run_shard(spec, emit):
